@@ -30,6 +30,25 @@ CONSTANTS Names,          \* the error names in play
           FuncCallErrs,   \* directors._FUNCTION_CALL_ERRORS (restricted to Names)
           AdjustErrs      \* directors._ALL_ADJUSTABLE_ERRORS (restricted to Names)
 
+(* The two tables of directors.py AT THE PINNED COMMIT, written out.  The model constants are   *)
+(* these tables restricted to the names in play (ASSUME below), so that every verdict and     *)
+(* every known-finding attribution is computed from the pinned classification, never from a   *)
+(* table imported from the code under test: a change of the tables in the code is a           *)
+(* difference between code and specification (TraceC03: clause "tables", and the behavioural  *)
+(* witnesses of ring 2 "alphabet" / ring 3).                                                  *)
+PinnedFuncCallErrs ==
+  {"attribute-error", "duplicate-keyword", "invalid-annotation", "missing-parameter",
+   "not-instantiable", "wrong-arg-count", "wrong-arg-types", "wrong-keyword-args",
+   "unsupported-operands"}
+PinnedAdjustErrs ==
+  PinnedFuncCallErrs \cup
+  {"annotation-type-mismatch", "bad-return-type", "bad-yield-annotation",
+   "container-type-mismatch", "not-supported-yet", "signature-mismatch"}
+
+ASSUME PinnedTables ==
+  /\ FuncCallErrs = PinnedFuncCallErrs \cap Names
+  /\ AdjustErrs = PinnedAdjustErrs \cap Names
+
 Star == "*"               \* directors._ALL_ERRORS
 Ign == "ignore"           \* key of the `# type: ignore` line set (Director._ignore)
 Keys == Names \cup {Star, Ign}
@@ -206,6 +225,24 @@ FilterOp(F, r, q) ==
   LET e == EffLine(F, r.br, q) IN [line |-> e, rep |-> ~SuppOp(r.ls, q.name, QLine(e))]
 
 -----------------------------------------------------------------------------
+(* errors.ErrorLog.error(stack, message, ..., line=xl) as the VM calls it.  A raised error    *)
+(* u = [name, op, xl, ret]: op = the line of the opcode that is executing when the error is   *)
+(* detected (Error.with_stack), xl = the line the caller asks the error to be reported at     *)
+(* (0: none, the error stays on the opcode's line), ret = raised by a RETURN opcode.          *)
+(* Errors with xl # 0 and xl # op are RELOCATED: detected at one place, reported at another   *)
+(* (incomplete-match: detected at the first opcode behind the match block, reported at the    *)
+(* line of the `match` keyword).  The steps, in the order of the code:                        *)
+(*   ErrNew     : the error object is created on the opcode's line                            *)
+(*   ErrSetLine : `if line: err.set_line(line)`                                               *)
+(*   ErrAdd     : _add -> the Director's filter_error decides on the error's CURRENT line     *)
+(*                (and may move an implicit-return error); a kept error is appended           *)
+(* The outcome [line, rep]: the line the error object ends up on, and whether it is logged.   *)
+ErrNew(u) == [name |-> u.name, line |-> u.op, ret |-> u.ret]
+ErrSetLine(e, xl) == IF xl # 0 THEN [e EXCEPT !.line = xl] ELSE e
+ErrAdd(F, r, e) == FilterOp(F, r, e)
+LogOp(F, r, u) == ErrAdd(F, r, ErrSetLine(ErrNew(u), u.xl))
+
+-----------------------------------------------------------------------------
 (* Declarative meaning.                                                                       *)
 (* STRICT (the property as worded): a trailing directive counts on its own line only; a       *)
 (* stand-alone one from its line to the next stand-alone one for the same key.                *)
@@ -258,6 +295,13 @@ DeclFilter(F, W, q, doc) ==
   LET e == DeclEff(F, q) IN [line |-> e, rep |-> ~Supp(F, W, q.name, QLine(e), doc)]
 
 QueryLines(F) == (0 .. F.n + 1) \cup {BIG}
+
+(* The property for raised errors: an error is reported at the line it was asked to be        *)
+(* reported at (the opcode's line if none), and it is reported iff THAT line carries no       *)
+(* directive for it -- wherever it was detected.                                              *)
+AskedLine(u) == IF u.xl # 0 THEN u.xl ELSE u.op
+DeclLog(F, W, u, doc) == DeclFilter(F, W, [name |-> u.name, line |-> AskedLine(u), ret |-> u.ret], doc)
+Relocated(u) == u.xl # 0 /\ u.xl # u.op
 
 -----------------------------------------------------------------------------
 (* Editing a file: write one more directive on an existing line (as the last directive of     *)
